@@ -226,25 +226,7 @@ func (v *FV) frameCheck(fr *Frame, st *State, con *Contract, vars map[string]TV,
 			return
 		}
 	}
-	// which (array, ref) pairs may change: evaluate the modifies locations in a scratch copy
-	allowed := map[string][]Term{}
-	scratch := st.clone()
-	saveQ := v.quiet
-	v.quiet++
-	for _, m := range con.Modifies {
-		env := &ExprEnv{v: v, vars: vars, snap: fr.oldSnap, pkg: pkg, what: "modifies"}
-		ts, err := v.locWrite(env, scratch, m, "")
-		if err != nil {
-			v.quiet = saveQ
-			v.specError(Clause{File: con.File, Line: con.Line, Text: "modifies " + m}, err)
-			v.quiet++
-			continue
-		}
-		for _, t := range ts {
-			allowed[t.arr] = append(allowed[t.arr], t.ref)
-		}
-	}
-	v.quiet = saveQ
+	allowed := v.allowedLocs(fr, st, con.Modifies, con, vars, pkg)
 	var names []string
 	for a := range v.arrays {
 		names = append(names, a)
@@ -262,10 +244,17 @@ func (v *FV) frameCheck(fr *Frame, st *State, con *Contract, vars map[string]TV,
 			continue
 		}
 		var excl []string
+		whole := false
 		for _, r := range allowed[a] {
+			if r == "*" {
+				whole = true
+			}
 			excl = append(excl, fmt.Sprintf("(not (= %s %s))", k, r))
 		}
-		hyp := fmt.Sprintf("(and (>= %s 0) (<= %s %s) %s)", k, k, v.n0, strings.Join(excl, " "))
+		if whole {
+			continue
+		}
+		hyp := fmt.Sprintf("(and (<= %s %s) %s)", k, v.n0, strings.Join(excl, " "))
 		goal := fmt.Sprintf("(=> %s (= (select %s %s) (select %s %s)))", hyp, now, k, was, k)
 		v.oblige("frame", a, "", "nothing outside modifies changed in "+a, st.reach, goal)
 	}
@@ -569,4 +558,64 @@ func (v *FV) ghostAssign(env *ExprEnv, st *State, text string) (err error) {
 	v.regArray(arr, fmt.Sprintf("(Array Int %s)", v.ghostSort(gty)))
 	v.heapSet(st.snap, arr, fmt.Sprintf("(store %s %s %s)", v.heapGet(st.snap, arr), base.T, val.T))
 	return nil
+}
+
+// allowedLocs: which (array, ref) pairs the listed locations cover (evaluated in the
+// function's entry state).
+func (v *FV) allowedLocs(fr *Frame, st *State, locs []string, con *Contract, vars map[string]TV, pkg *types.Package) map[string][]Term {
+	allowed := map[string][]Term{}
+	scratch := st.clone()
+	saveQ := v.quiet
+	v.quiet++
+	for _, m := range locs {
+		env := &ExprEnv{v: v, vars: vars, snap: fr.oldSnap, pkg: pkg, what: "modifies"}
+		ts, err := v.locWrite(env, scratch, m, "")
+		if err != nil {
+			v.quiet = saveQ
+			v.specError(Clause{File: con.File, Line: con.Line, Text: "modifies " + m}, err)
+			v.quiet++
+			continue
+		}
+		for _, t := range ts {
+			if t.all {
+				allowed[t.arr] = append(allowed[t.arr], "*")
+			} else {
+				allowed[t.arr] = append(allowed[t.arr], t.ref)
+			}
+		}
+	}
+	v.quiet = saveQ
+	return allowed
+}
+
+// loopFrameTerm: every array in arrs is unchanged since function entry outside allowed.
+func (v *FV) loopFrameTerm(fr *Frame, st *State, arrs []string, allowed map[string][]Term) Term {
+	var parts []string
+	for _, a := range arrs {
+		if strings.HasPrefix(a, "RV_") {
+			continue
+		}
+		now := v.heapGet(st.snap, a)
+		was := v.heapGet(fr.oldSnap, a)
+		if now == was {
+			continue
+		}
+		var excl []string
+		whole := false
+		for _, r := range allowed[a] {
+			if r == "*" {
+				whole = true
+			}
+			excl = append(excl, fmt.Sprintf("(not (= k %s))", r))
+		}
+		if whole {
+			continue
+		}
+		hyp := "(and (<= k N0!) " + strings.Join(excl, " ") + ")"
+		parts = append(parts, fmt.Sprintf("(forall ((k Int)) (! (=> %s (= (select %s k) (select %s k))) :pattern ((select %s k))))", hyp, now, was, now))
+	}
+	if len(parts) == 0 {
+		return "true"
+	}
+	return "(and " + strings.Join(parts, " ") + ")"
 }
